@@ -130,6 +130,12 @@ func cmdRun(args []string) int {
 			spec.MaxSteps = int(n)
 		case "timeout":
 			spec.TimeoutS = int(n)
+		case "override": // override=<function full name>:<harness function>
+			from, to, _ := strings.Cut(v, ":")
+			if spec.Overrides == nil {
+				spec.Overrides = map[string]string{}
+			}
+			spec.Overrides[from] = to
 		default:
 			spec.Params[k] = n
 		}
@@ -138,6 +144,17 @@ func cmdRun(args []string) int {
 	if err != nil {
 		fmt.Fprintln(os.Stderr, "load:", err)
 		return 2
+	}
+	if len(spec.Overrides) > 0 {
+		p.overrides = map[string]*ssaFunc{}
+		for from, to := range spec.Overrides {
+			f := p.pkgs[spec.Pkg].Func(to)
+			if f == nil {
+				fmt.Fprintln(os.Stderr, "override target not found:", to)
+				return 2
+			}
+			p.overrides[from] = f
+		}
 	}
 	res := explore(p, spec, nworkers(), seed())
 	printResult(res)
